@@ -272,6 +272,7 @@ void gen_lp_family(Tape &t, const GenOpts &o, int family, GenLP &out) {
       }
       r.rhs = r.sense == 'L' ? up : lo;   // implied by the box: harmless
       r.range = 0;
+      if (o.allow_range && t.chance(1, 5)) { Q width = abs(gen_nz(t, 1)); if (r.sense == 'L') r.rhs = r.rhs - width; r.sense = 'R'; r.range = width; }
     }
     // the contradiction: a = a1 + a2, a1.x >= r1, a2.x >= r2, r1 + r2 = max_box(a.x) + eps
     static const int margins[] = {0, -20, -60, -200};
@@ -294,6 +295,13 @@ void gen_lp_family(Tape &t, const GenOpts &o, int family, GenLP &out) {
         for (auto &kv : a2.a) kv.second = -kv.second;
         a2.rhs = -a2.rhs; a2.sense = 'L';
       }
+      // a G row is the lower side of a ranged row, an L row its upper side: present them that way now and then
+      for (Row *rp : {&a1, &a2}) {
+        if (!o.allow_range || !t.chance(1, 3)) continue;
+        Q width = abs(gen_nz(t, 1));
+        if (rp->sense == 'G') { rp->sense = 'R'; rp->range = width; }
+        else if (rp->sense == 'L') { rp->sense = 'R'; rp->rhs = rp->rhs - width; rp->range = width; }
+      }
       int p1 = (int)t.below((uint32_t)m.m() + 1);
       m.rows.insert(m.rows.begin() + p1, a1);
       int p2 = (int)t.below((uint32_t)m.m() + 1);
@@ -304,6 +312,7 @@ void gen_lp_family(Tape &t, const GenOpts &o, int family, GenLP &out) {
       for (auto it = a.a.begin(); it != a.a.end();) { if (it->second == 0) it = a.a.erase(it); else ++it; }
       a.sense = t.coin() ? 'G' : 'E';
       a.rhs = umax + eps;
+      if (a.sense == 'G' && o.allow_range && t.chance(1, 3)) { a.sense = 'R'; a.range = abs(gen_nz(t, 1)); }
       m.rows.insert(m.rows.begin() + (int)t.below((uint32_t)m.m() + 1), a);
     }
     out.expect = T_INFEASIBLE;
